@@ -4,6 +4,18 @@ import (
 	"github.com/elk-language/elk/value"
 )
 
+// Runs a counter operation and converts Go's "negative WaitGroup counter" panic
+// into the documented unchecked Elk error.
+func waitGroupCounterOp(fn func()) (err value.Value) {
+	defer func() {
+		if r := recover(); r != nil {
+			err = value.Ref(value.NewError(value.OutOfRangeErrorClass, "negative WaitGroup counter"))
+		}
+	}()
+	fn()
+	return value.Undefined
+}
+
 // Std::WaitGroup
 func initWaitGroup() {
 	// Instance methods
@@ -20,7 +32,9 @@ func initWaitGroup() {
 			if nVal.IsReference() {
 				return value.Undefined, value.Ref(value.NewError(value.OutOfRangeErrorClass, "n is too large"))
 			}
-			self.Add(int(nVal.AsSmallInt()))
+			if err := waitGroupCounterOp(func() { self.Add(int(nVal.AsSmallInt())) }); !err.IsUndefined() {
+				return value.Undefined, err
+			}
 			return args[0], value.Undefined
 		},
 		DefWithParameters(1),
@@ -35,7 +49,9 @@ func initWaitGroup() {
 			if nVal.IsReference() {
 				return value.Undefined, value.Ref(value.NewError(value.OutOfRangeErrorClass, "n is too large"))
 			}
-			self.Add(int(nVal.AsSmallInt()))
+			if err := waitGroupCounterOp(func() { self.Add(int(nVal.AsSmallInt())) }); !err.IsUndefined() {
+				return value.Undefined, err
+			}
 			return value.Nil, value.Undefined
 		},
 		DefWithParameters(1),
@@ -49,7 +65,9 @@ func initWaitGroup() {
 			if nVal.IsReference() {
 				return value.Undefined, value.Ref(value.NewError(value.OutOfRangeErrorClass, "n is too large"))
 			}
-			self.Remove(int(nVal.AsSmallInt()))
+			if err := waitGroupCounterOp(func() { self.Remove(int(nVal.AsSmallInt())) }); !err.IsUndefined() {
+				return value.Undefined, err
+			}
 			return value.Nil, value.Undefined
 		},
 		DefWithParameters(1),
@@ -59,7 +77,9 @@ func initWaitGroup() {
 		"start",
 		func(_ *Thread, args []value.Value) (value.Value, value.Value) {
 			self := (*value.WaitGroup)(args[0].Pointer())
-			self.Start()
+			if err := waitGroupCounterOp(self.Start); !err.IsUndefined() {
+				return value.Undefined, err
+			}
 			return value.Nil, value.Undefined
 		},
 	)
@@ -68,7 +88,9 @@ func initWaitGroup() {
 		"end",
 		func(_ *Thread, args []value.Value) (value.Value, value.Value) {
 			self := (*value.WaitGroup)(args[0].Pointer())
-			self.End()
+			if err := waitGroupCounterOp(self.End); !err.IsUndefined() {
+				return value.Undefined, err
+			}
 			return value.Nil, value.Undefined
 		},
 	)
